@@ -94,6 +94,19 @@ theorem C11_method_ctype (m : Bytes) (chain : List Wrapper) (h : Handler) (req :
   have := ensure_mem_ran m chain h req hmem hr
   exact ⟨this.1, fun hm => ctypeOK_json req (this.2 hm)⟩
 
+/-- A request that announces a body — any `ContentLength` other than 0, in
+particular the unknown length -1 of a chunked (or HTTP/2 length-less) request,
+whatever the chunks turn out to hold — enters a handler behind `ensure m` with a
+modifying `m` only with `Content-Type: application/json`. -/
+theorem C11_body_needs_json (m : Bytes) (chain : List Wrapper) (h : Handler) (req : Req)
+    (hmem : .ensure m ∈ chain) (hmod : modifiesData m = true)
+    (hlen : req.contentLength ≠ 0) (hr : run chain h req = .ran) :
+    req.ctype = sAppJSON := by
+  have hc := (ensure_mem_ran m chain h req hmem hr).2 hmod
+  unfold ctypeOK at hc
+  rw [if_neg hlen] at hc
+  exact beq_iff_eq.mp hc
+
 /-! ## Install-wizard routes -/
 
 /-- Behind `preInstall` the handler is entered only during the first run. -/
@@ -215,6 +228,14 @@ theorem C11_state_changing_guarded (r : Route) (hr : r ∈ Gen.routes) (req : Re
   have := C11_method_ctype r.declared r.chain h req hmem hran
   exact ⟨this.1, this.2 (by rw [← stateChanging_eq]; exact hsc)⟩
 
+/-- The same for a request with a body of known or unknown length: only
+`application/json` gets it into the handler of a state-changing route. -/
+theorem C11_state_changing_body_json (r : Route) (hr : r ∈ Gen.routes) (req : Req) (h : Handler)
+    (hsc : stateChanging r.declared = true) (hlen : req.contentLength ≠ 0)
+    (hran : run r.chain h req = .ran) : req.ctype = sAppJSON :=
+  C11_body_needs_json r.declared r.chain h req ((C11_all_routes_gated' r hr).2 hsc)
+    (by rw [← stateChanging_eq]; exact hsc) hlen hran
+
 /-- The model satisfies the spec monitor on every request, for every route of
 the regenerated table that can serve it and for the mux's own answers. -/
 theorem C11_model_meets_spec (s : Served) (req : Req)
@@ -286,6 +307,16 @@ example : run chainPOST (fun _ => .ran) (reqStatus .valid .none) = .methodNotAll
 example : run chainPOST (fun _ => .ran)
     { reqStatus .valid .none with method := sPOST, ctype := [120], contentLength := 2 } = .unsupportedMedia := by
   decide
+-- unknown length (chunked): no content type 415, form 415, JSON passes — also when
+-- nothing says the body is non-empty
+example : run chainPOST (fun _ => .ran)
+    { reqStatus .valid .none with method := sPOST, ctype := [], contentLength := -1 } = .unsupportedMedia := by
+  decide
+example : run chainPOST (fun _ => .ran)
+    { reqStatus .valid .none with method := sPOST, ctype := sAppJSON, contentLength := -1 } = .ran := by
+  decide
+example : specOK { reqStatus .valid .none with method := sPOST, ctype := [], contentLength := -1 }
+    (some sPOST) (.resp .ran) = false := by decide
 -- the monitor is not trivially true: it rejects an unauthenticated handler run,
 -- a 405 in place of the 403, and a state change with a form content type
 example : specOK (reqStatus .none .none) (some sGET) (.resp .ran) = false := by decide
